@@ -662,6 +662,10 @@ class Engine:
             cf = s.m.funcs.get(nm)
             if cf is not None and cf.defined and nm not in OVERRIDE:
                 if cf.va: raise Unsupported('varargs callee ' + nm)
+                if len(cf.params) > len(I.args):
+                    # indirect call whose pointer alternative has a different arity: cannot be the intended callee (junk
+                    # alternative merged in from another path); reaching it would be undefined behaviour => checked violation
+                    s.add_check(g2, 'indirect call to a function with a different signature (%s from %s)' % (nm[:50], f.name[:40]), 'mem'); continue
                 if s.concrete is None and not isinstance(g2, bool):
                     nrec = sum(1 for fr_ in ctrl if fr_[0] == nm)
                     if nrec >= s.opts.get('max_rec', 3):
@@ -1064,6 +1068,11 @@ class Engine:
             for i in range(n):
                 ne = gor(ne, icmp('ne', s.mem.load(binop('add', A(0), i, 64), 1, g, 'memcmp'), s.mem.load(binop('add', A(1), i, 64), 1, g, 'memcmp'), 8))
             ret(ite(ne, 1, 0, 32), 32); return
+        if nm == 'strcmp':
+            a, b = A(0), A(1)
+            if not (isinstance(a, int) and isinstance(b, int)): raise Unsupported('symbolic strcmp')
+            sa, sb = s.mem.cstring(a), s.mem.cstring(b)
+            ret(0 if sa == sb else (mask(-1, 32) if sa < sb else 1), 32); return
         if nm == 'strlen':
             p = A(0)
             if not isinstance(p, int): raise Unsupported('symbolic strlen')
